@@ -136,10 +136,49 @@ def check_write_discipline(chk):
             g = gguard.guard_of(fn, r, par)
             if not any("read(" in x and not x.startswith("!") for x in g):
                 bad.append(g)
+        # the number of bytes read is tellg(): that is the file size only if the stream was positioned at the end
+        # first (open mode `ate`, or a seekg(0, end) before tellg)
+        size_bad = None
+        tell = [n for n in walk(fn["body"]) if (n.get("callee") or {}).get("name") == "tellg"]
+        if tell:
+            idx = order_index(fn)
+            first_tell = min(idx[id(n)] for n in tell)
+            seek_end = [n for n in walk(fn["body"]) if (n.get("callee") or {}).get("name") == "seekg" and len(n.get("args") or []) == 2
+                        and idx[id(n)] < first_tell]
+            mode = None
+            for n in walk(fn["body"]):
+                if n.get("k") == "VarDecl" and "ifstream" in (n.get("t") or "") and (n.get("init") or {}).get("args"):
+                    a = n["init"]["args"]
+                    if len(a) > 1 and "cv" in a[1]:
+                        mode = int(a[1]["cv"])
+            flags = ios_flags()
+            if not seek_end and (mode is None or not (mode & flags["ate"])):
+                size_bad = "tellg() is taken as the file size but the stream is not at the end (open mode %s lacks std::ios::ate and no seekg(0, end) precedes it): the schema is read as empty" % mode
         if len(throws) < 2 or bad:
             chk.violation("G-IO.read", "read_file", where, "read_file returns data without a successful read test (%s)" % bad)
+        elif size_bad:
+            chk.violation("G-IO.read", "read_file", where, "read_file: " + size_bad)
         else:
             chk.ok("G-IO.read", "read_file", {"where": where})
+
+
+_IOS = {}
+
+
+def ios_flags():
+    """values of the std::ios open mode flags of the installed standard library (compile-time witness)"""
+    if not _IOS:
+        cand = {"app": 1, "ate": 2, "binary": 4, "in": 8, "out": 16, "trunc": 32}
+        src = "#include <ios>\n" + "".join("static_assert(static_cast<int>(std::ios::%s) == %d, \"%s\");\n" % (k, v, k) for k, v in cand.items())
+        d = os.path.join(CACHE, "wit")
+        os.makedirs(d, exist_ok=True)
+        p = os.path.join(d, "ios_flags.cpp")
+        open(p, "w").write(src)
+        r = run(["clang++", "-std=c++17", "-fsyntax-only", p])
+        if r.returncode != 0:
+            raise AnalysisBroken("std::ios open mode flag values differ from the expected libstdc++ ones: " + r.stderr[:300])
+        _IOS.update(cand)
+    return _IOS
 
 
 def check_who_touches_disk(chk):
